@@ -1,3 +1,4 @@
+import unicodedata
 from abc import ABC, abstractmethod
 from collections.abc import Hashable, Mapping
 from dataclasses import dataclass, field
@@ -147,7 +148,10 @@ def create_key_accessor(key: Union[str, int], access_error: Optional[Catchable])
 
 
 def is_valid_field_id(value: str) -> bool:
-    return value.isidentifier()
+    # Field id becomes a part of identifiers of the generated code.
+    # The parser applies NFKC normalization to identifiers,
+    # so an id that is not in this form ("\ufb01") would silently turn into another one ("fi")
+    return value.isidentifier() and unicodedata.normalize("NFKC", value) == value
 
 
 @dataclass(frozen=True)
